@@ -401,6 +401,29 @@ func c47SlotTable(r *vrep.R, kind string, n int, start uint64, submitter int, pr
 		seen[s] = m
 		rel = append(rel, s-start)
 	}
+	// a slot is a window, not a single block: the step between the first two members is
+	// the window length the code gives a member, and no other member's block may fall
+	// into somebody's window (uniform tables only: an approval gives the submitter a
+	// precedence period of its own)
+	if kind != "approve" && n >= 2 {
+		step := int64(rel[1]) - int64(rel[0])
+		if step <= 0 {
+			r.ViolationMin(kind+"-slot-order", n, fp, fmt.Sprintf("member 2 waits for block reference+%d, not after member 1 (reference+%d)", rel[1], rel[0]), map[string]any{"leg": "tbtc-slots", "case": base})
+		} else {
+			for i := 0; i < n; i++ {
+				for j := i + 1; j < n; j++ {
+					d := int64(rel[j]) - int64(rel[i])
+					if d < 0 {
+						d = -d
+					}
+					if d < step {
+						r.ViolationMin(kind+"-slot-overlap", n*1000+j, fp, fmt.Sprintf("%s, group of %d: member %d waits for block reference+%d, inside the %d-block slot of member %d (reference+%d)", kind, n, j+1, rel[j], step, i+1, rel[i]), map[string]any{"leg": "tbtc-slots", "case": base})
+						i, j = n, n // one report per table
+					}
+				}
+			}
+		}
+	}
 	r.Outcome(kind + "-slots: distinct")
 	r.Distinct(fp)
 	r.State(fmt.Sprintf("%s|%v", fp, rel))
